@@ -22,6 +22,7 @@ func runC20(c *Ctx) {
 	c.NotDec = []string{"exactly-once / in-order delivery for all interleavings (schedule-quantified)", "security of ChaCha20-Poly1305, X25519, HKDF and Merlin (trusted)", "behaviour of the underlying net.Conn"}
 	c.Floors["G"] = 14
 	c.Floors["O"] = 8
+	c20Round3(c)
 
 	// ---- handshake -----------------------------------------------------------------------------------
 	if fn := c.Fn("lib/p2p/conn", "", "MakeSecretConnection"); fn != nil {
